@@ -152,6 +152,8 @@ func provenance(h *hev) string {
 }
 
 type roundStats struct {
+	ownLost          []string // read-your-own-write failures of the filler goroutines (rounds without Clear)
+	ownChecks        int64
 	growths, shrinks int64
 	condWaits        uint64
 	casFails         uint64
@@ -196,22 +198,52 @@ func runMapRound(rd *mapRound, m mapAPI) ([]*hev, roundStats) {
 			hists[w] = hs
 		}(w)
 	}
+	// filler keys have ONE owner each: when no Clear can interfere, a Load right after
+	// the owner's own Store must return that value and a Load after its Delete must miss
+	hasClear := false
+	for _, p := range rd.progs {
+		for _, w := range p {
+			if w.kind == oClear {
+				hasClear = true
+			}
+		}
+	}
+	var ownMu sync.Mutex
 	var fwg sync.WaitGroup
 	for f := 0; f < rd.fillers; f++ {
 		fwg.Add(1)
 		go func(f int) {
 			defer fwg.Done()
 			<-start
+			var lost []string
+			checks := int64(0)
 			for wv := 0; wv < rd.waves && atomic.LoadInt32(&stop) == 0; wv++ {
 				for k := rd.fillLo + f; k < rd.fillHi; k += rd.fillers {
-					m.Store(k, nextVal(k))
+					v := nextVal(k)
+					m.Store(k, v)
+					if !hasClear {
+						checks++
+						if got, ok := m.Load(k); (!ok || got != any(v)) && len(lost) < 5 {
+							lost = append(lost, fmt.Sprintf("Store(k%d,%s) returned, the owner's next Load(k%d) = (%s,%v)", k, fmtVal(v), k, fmtVal(got), ok))
+						}
+					}
 					vshim.Progress()
 				}
 				for k := rd.fillLo + f; k < rd.fillHi; k += rd.fillers {
 					m.Delete(k)
+					if !hasClear {
+						checks++
+						if got, ok := m.Load(k); ok && len(lost) < 5 {
+							lost = append(lost, fmt.Sprintf("Delete(k%d) returned, the owner's next Load(k%d) = (%s,true)", k, k, fmtVal(got)))
+						}
+					}
 					vshim.Progress()
 				}
 			}
+			ownMu.Lock()
+			st.ownLost = append(st.ownLost, lost...)
+			st.ownChecks += checks
+			ownMu.Unlock()
 		}(f)
 	}
 	close(start)
@@ -271,8 +303,10 @@ func genMapRound(r rng, prop string, flavors []string, hashers []string) (*mapRo
 	m := newMap(rd.spec)
 	rd.level = pick(r, []int{0, 1, 1, 2, 2, 3})
 	rd.focus = vshim.NKinds
-	if r.chance(0.4) {
-		rd.focus = vshim.Kind(r.intn(int(vshim.NKinds)))
+	if r.chance(0.5) {
+		// mostly the kinds that open a window between two adjacent operations of one call
+		rd.focus = pick(r, []vshim.Kind{vshim.KLoad, vshim.KLoad, vshim.KLoad, vshim.KStore, vshim.KAfterStore, vshim.KAfterCAS, vshim.KAfterUnlock,
+			vshim.KLock, vshim.KCondWait, vshim.KBroadcast, vshim.KAdd, vshim.KCAS, vshim.Kind(r.intn(int(vshim.NKinds)))})
 	}
 	rd.procs = pick(r, []int{1, 2, 4, 16, 16})
 	rd.polling = r.chance(0.5)
@@ -389,6 +423,10 @@ func genMapRound(r rng, prop string, flavors []string, hashers []string) (*mapRo
 func runLinzMap(a *args, res *result) {
 	flavors := []string{"Map"}
 	var hashers []string
+	if a.prop == "C11" {
+		flavors = mapFlavors // every flavour: nothing may be lost, duplicated or resurrected across resizes
+		hashers = hasherModes
+	}
 	if a.prop == "C04" || a.prop == "C10" {
 		flavors = []string{"MapOf[int,val]", "MapOf[string,val]", "MapOf[skey,val]"}
 		hashers = hasherModes
@@ -404,6 +442,26 @@ func runLinzMap(a *args, res *result) {
 			continue
 		}
 		r := newRng(a.seed, uint64(i)*8+3)
+		if i%12 == 5 {
+			sp := mapSpec{Flavor: pick(r, flavors), Hint: noHint, NKeys: 2048}
+			if sp.Flavor != "Map" && len(hashers) > 0 && r.chance(0.3) {
+				sp.Hasher = pick(r, []string{"mix", "sameh2"})
+			}
+			for rep := 0; rep < 12; rep++ {
+				m := newMap(sp)
+				ownStorm(r, res, i, specName(sp), m.Load, m.Store, m.Delete)
+			}
+			continue
+		}
+		if i%16 == 7 {
+			sp := mapSpec{Flavor: pick(r, flavors), Hint: pick(r, []int{noHint, 0, 200}), NKeys: 4096}
+			if sp.Flavor != "Map" && len(hashers) > 0 && r.chance(0.5) {
+				sp.Hasher = pick(r, hashers)
+			}
+			m := newMap(sp)
+			stableStorm(r, res, i, specName(sp), m.Load, m.Store, m.Delete)
+			continue
+		}
 		rd, m := genMapRound(r, a.prop, flavors, hashers)
 		logCase("linzmap %s round %d: %s", a.prop, i, rd.desc())
 		hs, st := runMapRound(rd, m)
@@ -437,6 +495,10 @@ func runLinzMap(a *args, res *result) {
 			if s := provenance(h); s != "" {
 				res.violate(violation{Class: "provenance", Sig: "value stored under another key is returned", Msg: s, Case: caseInfo(map[string]any{"call": h.String()})})
 			}
+		}
+		res.count("own_write_readbacks", st.ownChecks)
+		for _, s := range st.ownLost {
+			res.violate(violation{Class: "own-write", Sig: "a completed write is not visible to its own goroutine (single-owner key, no Clear in the round)", Msg: specName(rd.spec) + ": " + s, Case: caseInfo(nil)})
 		}
 		selfBad := false
 		for _, h := range hs {
@@ -482,4 +544,187 @@ func min(a, b int) int {
 		return a
 	}
 	return b
+}
+
+// stableStorm: native-speed monitor for windows that are only nanoseconds wide.
+// A set of stable keys is stored once and never touched again; readers look them
+// up hundreds of thousands of times without recording anything (a stable key has
+// exactly one legal answer), while other goroutines drive continuous grow / shrink
+// cycles with keys of their own and update a few volatile keys in place. No
+// perturbation: the point is the sheer number of lookups that straddle a table
+// publication, a bucket copy or an in-place update.
+func stableStorm(r rng, res *result, idx int64, name string, load func(int) (any, bool), store func(int, any), del func(int)) {
+	nstable := pick(r, []int{4, 16, 64})
+	stable := make([]any, nstable)
+	for k := 0; k < nstable; k++ {
+		stable[k] = nextVal(k)
+		store(k, stable[k])
+	}
+	readers := r.between(2, 8)
+	churners := r.between(1, 3)
+	width := pick(r, []int{130, 300, 700})
+	perReader := pick(r, []int{40000, 120000})
+	logCase("stable-storm round %d %s stable=%d readers=%d churners=%d width=%d reads=%d", idx, name, nstable, readers, churners, width, perReader)
+	old := runtime.GOMAXPROCS(16)
+	vshim.SetPerturb(0, vshim.NKinds)
+	vshim.ResetLive()
+	vshim.SetMode(vshim.MCount | vshim.MBudget)
+	var wg, cwg sync.WaitGroup
+	var stop int32
+	var misses, wrong int64
+	var firstBad atomic.Value
+	start := make(chan struct{})
+	for g := 0; g < readers; g++ {
+		wg.Add(1)
+		go func(g int) {
+			defer wg.Done()
+			<-start
+			k := g % nstable
+			for j := 0; j < perReader; j++ {
+				v, ok := load(k)
+				if !ok {
+					if atomic.AddInt64(&misses, 1) == 1 {
+						firstBad.Store(fmt.Sprintf("Load(k%d) = (%s,false), stored once and never touched: %s", k, fmtVal(v), fmtVal(stable[k])))
+					}
+				} else if v != stable[k] {
+					if atomic.AddInt64(&wrong, 1) == 1 {
+						firstBad.Store(fmt.Sprintf("Load(k%d) = (%s,true), stored once and never touched: %s", k, fmtVal(v), fmtVal(stable[k])))
+					}
+				}
+				k++
+				if k == nstable {
+					k = 0
+				}
+				if j&1023 == 0 {
+					vshim.Progress()
+				}
+			}
+		}(g)
+	}
+	for g := 0; g < churners; g++ {
+		cwg.Add(1)
+		go func(g int) {
+			defer cwg.Done()
+			<-start
+			base := 1000 + g*width
+			for atomic.LoadInt32(&stop) == 0 {
+				for k := base; k < base+width; k++ {
+					store(k, nextVal(k))
+				}
+				// in-place updates of a volatile key between the waves
+				store(900+g, nextVal(900+g))
+				for k := base; k < base+width; k++ {
+					del(k)
+				}
+				vshim.Progress()
+			}
+		}(g)
+	}
+	close(start)
+	wg.Wait()
+	atomic.StoreInt32(&stop, 1)
+	cwg.Wait()
+	vshim.SetMode(0)
+	runtime.GOMAXPROCS(old)
+	res.Evaluations++
+	res.count("family:stable-storm", 1)
+	res.count("stable_reads", int64(readers*perReader))
+	fp := newFP()
+	fp.addStr("stable-storm" + name)
+	fp.add(uint64(idx), uint64(readers), uint64(churners))
+	res.nontrivial(fp.sum())
+	if misses+wrong > 0 {
+		msg, _ := firstBad.Load().(string)
+		sig := "a key that is present and never modified is reported absent while the table is being resized"
+		if wrong > 0 {
+			sig = "a key that is never modified is read with a value that was never stored under it"
+		}
+		res.violate(violation{Class: "stable-read", Sig: sig, Msg: fmt.Sprintf("%s: %d misses, %d wrong values in %d lookups; first: %s", name, misses, wrong, readers*perReader, msg),
+			Case: map[string]any{"case_index": idx, "desc": name}})
+	}
+}
+
+// ownStorm: native-speed read-your-own-write monitor. Many goroutines store keys
+// that only they touch into a fresh (minimal) table - so that it grows several
+// times while they do - and load each key back at once; then all delete their
+// keys - so that it shrinks - and check that they are gone. A write that returned
+// but landed in a table that had already been replaced is seen by its own author.
+func ownStorm(r rng, res *result, idx int64, name string, load func(int) (any, bool), store func(int, any), del func(int)) {
+	G := pick(r, []int{48, 128, 256})
+	const per = 4
+	logCase("own-storm round %d %s goroutines=%d", idx, name, G)
+	old := runtime.GOMAXPROCS(pick(r, []int{4, 8, 16}))
+	mode := vshim.MCount | vshim.MBudget
+	if r.chance(0.35) {
+		// a third of the storms run with long pauses between adjacent loads / after a CAS instead of at native speed
+		G = 32
+		vshim.SetPerturb(2, pick(r, []vshim.Kind{vshim.KLoad, vshim.KLoad, vshim.KAfterCAS, vshim.KLock}))
+		mode |= vshim.MPerturb
+	} else {
+		vshim.SetPerturb(0, vshim.NKinds)
+	}
+	vshim.ResetLive()
+	vshim.SetMode(mode)
+	var wg sync.WaitGroup
+	var lostN int64
+	var first atomic.Value
+	start := make(chan struct{})
+	var phase2 sync.WaitGroup
+	phase2.Add(G)
+	gate := make(chan struct{})
+	for g := 0; g < G; g++ {
+		wg.Add(1)
+		go func(g int) {
+			defer wg.Done()
+			<-start
+			for j := 0; j < per; j++ {
+				k := g*per + j
+				v := nextVal(k)
+				store(k, v)
+				if got, ok := load(k); !ok || got != any(v) {
+					if atomic.AddInt64(&lostN, 1) == 1 {
+						first.Store(fmt.Sprintf("Store(k%d,%s) returned, the owner's next Load = (%s,%v)", k, fmtVal(v), fmtVal(got), ok))
+					}
+				}
+			}
+			vshim.Progress()
+			phase2.Done()
+			<-gate
+			for j := 0; j < per; j++ {
+				k := g*per + j
+				del(k)
+				if got, ok := load(k); ok {
+					if atomic.AddInt64(&lostN, 1) == 1 {
+						first.Store(fmt.Sprintf("Delete(k%d) returned, the owner's next Load = (%s,true)", k, fmtVal(got)))
+					}
+				}
+			}
+			vshim.Progress()
+		}(g)
+	}
+	close(start)
+	phase2.Wait()
+	// quiescent point between the phases: every key must be there
+	missing := 0
+	for k := 0; k < G*per; k++ {
+		if _, ok := load(k); !ok {
+			missing++
+		}
+	}
+	close(gate)
+	wg.Wait()
+	vshim.SetMode(0)
+	runtime.GOMAXPROCS(old)
+	res.Evaluations++
+	res.count("family:own-storm", 1)
+	res.count("own_write_readbacks", int64(2*G*per))
+	fp := newFP()
+	fp.addStr("own-storm" + name)
+	fp.add(uint64(idx), uint64(G), uint64(res.Counters["family:own-storm"]))
+	res.nontrivial(fp.sum())
+	if lostN > 0 || missing > 0 {
+		msg, _ := first.Load().(string)
+		res.violate(violation{Class: "own-write", Sig: "a completed write is not visible to its own goroutine (single-owner key, no Clear in the round)",
+			Msg: fmt.Sprintf("%s: %d read-back failures, %d of %d stored keys missing at the quiescent point; first: %s", name, lostN, missing, G*per, msg), Case: map[string]any{"case_index": idx, "desc": name}})
+	}
 }
